@@ -51,14 +51,14 @@ def cargo(args, target, rustflags=None, cwd=HARNESS, timeout=1800, extra_env=Non
 _ir_cache = {}
 
 
-def build_ir(profile, features, lto=False):
+def build_ir(profile, features, lto=False, opt=None):
     """profile in {'rel','dbg'}; returns (path of .ll, build seconds).  Always invokes cargo: the
     fingerprint of the path dependency /repo decides whether anything is recompiled."""
-    key = (profile, tuple(sorted(features)), lto)
+    key = (profile, tuple(sorted(features)), lto, opt)
     if key in _ir_cache:
         return _ir_cache[key]
     t0 = time.time()
-    target = 'L-%s%s' % (profile, '-lto' if lto else '')
+    target = 'L-%s%s%s' % (profile, '-lto' if lto else '', '-o%s' % opt if opt else '')
     prof = ['--release'] if profile == 'rel' else ['--profile', 'dbg']
     pdir = 'release' if profile == 'rel' else 'dbg'
     feats = ','.join(['cbmc'] + sorted(features) + (['lto_std'] if lto else []))
@@ -70,7 +70,9 @@ def build_ir(profile, features, lto=False):
     args = ['rustc', '--offline', '--lib'] + prof + ['--features', feats, '--', '--emit=llvm-ir']
     if lto:
         args = ['rustc', '--offline', '--lib', '--crate-type', 'staticlib'] + prof + ['--features', feats, '--', '--emit=llvm-ir']
-    lto_env = {'CARGO_PROFILE_RELEASE_LTO': 'fat', 'CARGO_PROFILE_DBG_LTO': 'fat'} if lto else None
+    lto_env = {'CARGO_PROFILE_RELEASE_LTO': 'fat', 'CARGO_PROFILE_DBG_LTO': 'fat'} if lto else {}
+    if opt:
+        lto_env['CARGO_PROFILE_RELEASE_OPT_LEVEL' if profile == 'rel' else 'CARGO_PROFILE_DBG_OPT_LEVEL'] = str(opt)
     rc, out = cargo(args, target, rustflags=NOVEC, extra_env=lto_env)
     if rc != 0:
         raise Inconclusive('cargo build of the harness crate failed (profile %s, features %s):\n%s' % (profile, feats, out[-3000:]))
@@ -219,19 +221,20 @@ def _num(v):
 class Ob:
     """one proof obligation = one harness entry in one profile"""
 
-    def __init__(self, harness, group, profile='rel', unwind=None, lto=False, deep=False, family=None):
+    def __init__(self, harness, group, profile='rel', unwind=None, lto=False, deep=False, family=None, feats=()):
         self.harness, self.group, self.profile, self.lto, self.deep = harness, group, profile, lto, deep
+        self.feats = tuple(feats)
         nums = [int(x) for x in re.findall(r'_(\d+)', harness[len(family):] if family else harness)]
         self.params = nums
         self.family = family or re.sub(r'(_\d+)+$', '', harness)
         self.unwind = unwind if unwind is not None else (max(nums) if nums else 3) + 2
-        self.name = '%s@%s' % (harness, profile)
+        self.name = '%s@%s%s' % (harness, profile, ''.join('+' + f for f in feats))
 
     def features(self):
-        return tuple(sorted([self.group] + (['deep'] if self.deep else [])))
+        return tuple(sorted([self.group] + (['deep'] if self.deep else []) + list(self.feats)))
 
     def cdir(self):
-        d = os.path.join(BUILD, 'c', self.profile + ('-lto' if self.lto else ''))
+        d = os.path.join(BUILD, 'c', self.profile + ('-lto' if self.lto else '') + ''.join('-' + f for f in self.feats))
         os.makedirs(d, exist_ok=True)
         return d
 
@@ -251,7 +254,7 @@ def prepare(ob, T):
     cfile = os.path.join(ob.cdir(), entry + '.c')
     with open(cfile, 'w') as f:
         f.write(c)
-    return {'ob': ob.name, 'harness': ob.harness, 'family': ob.family, 'profile': ob.profile, 'group': ob.group,
+    return {'ob': ob.name, 'harness': ob.harness, 'family': ob.family, 'profile': ob.profile, 'group': ob.group, 'feats': list(ob.feats),
             'info': info, 'cfile': cfile, 'unwind': ob.unwind, 'params': ob.params}
 
 
@@ -319,7 +322,12 @@ def solve(res, caps):
                 'n_props': len(props), 'n_checked': len([p for p in props if p[3] != 'REACH']),
                 'reach_ids': reach_all, 'reached': reach_ok, 'vacuous': vacuous,
                 'fails': [{'prop': p[0], 'desc': p[1], 'cls': p[3], 'id': p[4]} for p in fails]})
-    if unw_fail:
+    if fails and unw_fail:
+        # a counterexample found within the bound is a real execution (paths beyond the bound are cut, not invented);
+        # it is replayed natively before being reported
+        res['verdict'] = 'cex'
+        res['why'] = 'note: some unwinding assertion also fails (base unwind %d, per-loop %s)' % (unwind, loopb)
+    elif unw_fail:
         res['verdict'] = 'inconclusive'
         res['why'] = 'unwinding assertion still failing (base unwind %d, per-loop %s, cap %d)' % (unwind, loopb, caps['max_unwind'])
     elif vacuous:
@@ -374,11 +382,11 @@ def replay_bin(groups, native_profile):
     return dst
 
 
-def replay_native(harness, group, vector, profiles=('release', 'dev')):
+def replay_native(harness, group, vector, profiles=('release', 'dev'), feats=()):
     """returns {profile: set(ids) | 'INVALID' | 'ERROR ...'}"""
     out = {}
     for prof in profiles:
-        b = replay_bin([group], prof)
+        b = replay_bin([group] + list(feats), prof)
         try:
             p = subprocess.run([b, harness, ','.join(str(x) for x in vector)], stdout=subprocess.PIPE,
                                stderr=subprocess.STDOUT, text=True, timeout=60)
@@ -390,6 +398,9 @@ def replay_native(harness, group, vector, profiles=('release', 'dev')):
         m = re.search(r'REPRODUCED checks=\[([^\]]*)\]', txt)
         if m:
             ids = {int(x) for x in m.group(1).split(',') if x.strip()}
+        ma = re.search(r'ALLOCS (\d+)', txt)
+        if ma and int(ma.group(1)) > 0 and not ids and 'REPLAY-PANIC' not in txt:
+            ids.add(-3)   # heap requests during a run without failing checks or panics
         if 'REPLAY-INVALID' in txt:
             out[prof] = 'INVALID'
         elif p.returncode < 0:
@@ -410,13 +421,25 @@ def run_all(obs, caps, label=''):
     builds = {}
     prepared = []
     for ob in obs:
-        key = (ob.profile, ob.features(), ob.lto)
-        if key not in builds:
-            path, secs = build_ir(ob.profile, list(ob.features()), lto=ob.lto)
-            builds[key] = {'ll': path, 'secs': round(secs, 1), 'lines': sum(1 for _ in open(path))}
-            log('  built IR %s features=%s: %d lines in %.1fs' % (ob.profile, ','.join(ob.features()), builds[key]['lines'], secs))
-        T = translator(builds[key]['ll'])
-        prepared.append(prepare(ob, T))
+        # profile rel is opt-level 3; if the translator meets an IR construct it does not know, fall back to 2, then 1
+        levels = [None, 2, 1] if ob.profile == 'rel' else [None]
+        p = None
+        for opt in levels:
+            key = (ob.profile, ob.features(), ob.lto, opt)
+            if key not in builds:
+                path, secs = build_ir(ob.profile, list(ob.features()), lto=ob.lto, opt=opt)
+                builds[key] = {'ll': path, 'secs': round(secs, 1), 'lines': sum(1 for _ in open(path))}
+                log('  built IR %s%s features=%s: %d lines in %.1fs' % (ob.profile, ' (opt-level %s fallback)' % opt if opt else '',
+                                                                       ','.join(ob.features()), builds[key]['lines'], secs))
+            T = translator(builds[key]['ll'])
+            p = prepare(ob, T)
+            if opt:
+                p['opt_level_fallback'] = opt
+                p['cfile_note'] = 'translated from opt-level %s IR because the opt-level 3 IR contained an unsupported construct' % opt
+            if not (p.get('verdict') == 'inconclusive' and 'unsupported IR construct' in p.get('why', '')):
+                break
+            log('  %s: %s' % (ob.name, p['why'].splitlines()[0][:200]))
+        prepared.append(p)
     results = []
     with cf.ThreadPoolExecutor(max_workers=JOBS) as ex:
         for r in ex.map(lambda p: solve(p, caps), prepared):
